@@ -8,15 +8,25 @@ import Afkak.Consumer
   alterations "of the checksummed bytes" only, which is what `C12_burst` proves.  The extension is
   FALSE for a CRC stored in front of the data it covers; `C12_burst_any_position_counterexample`
   in `AfkakProps/C12.lean` proves the negation on a 27-byte message.
+  PROVED detected (every message length ≥ 6, full span of 32 bits in CRC bit order, every window
+  position): bursts confined to the checksummed region (`C12_burst`), alterations confined to the
+  stored CRC word (`C12_crc_field_error`), i.e. every burst anywhere that does not have set bits on
+  BOTH sides of the byte 3 / byte 4 boundary (`C12_burst_any_position_partial`); on bytes: every
+  alteration confined to ≤ 4 consecutive bytes not containing both byte 3 and byte 4
+  (`C12_window_bytes`); and all of these inside a message set (`C12_burst_nonstraddling_in_set`,
+  `C12_window_in_set`).  NOT proved (and false in general): bursts with set bits on both sides of
+  that boundary.
 * `C12_refetch_after_delivery`: the other half of the monitor `refetchOk`, on the consumer model — when
   the cut set still held complete messages, they are delivered, the next fetch starts right after
   the last of them and the buffer is unchanged.  As written it quantifies over an ARBITRARY
   re-entrant API `inner : Ops` (any four functions on states) and is therefore FALSE
   (`C12_refetch_after_delivery_counterexample`: an `inner.stop` that rewinds the position).  For the
   API the model actually runs with, `opsN cfg n` at every depth, the very same statement is PROVED
-  (`C12_refetch_after_delivery_model`), and for every `inner` that leaves position and buffer alone
-  (`C12_refetch_after_delivery_partial`).  Kept here, unmodified, because a statement is never edited
-  to make it provable.  (`C12_refetch_model` proves the too-small half.)
+  (`C12_refetch_after_delivery_model`), for every `inner` that leaves position and buffer alone
+  (`C12_refetch_after_delivery_partial`), and on the model's transition function `step` — where no
+  `inner` can be chosen — for every state that enables the event (`C12_refetch_after_delivery_step`).
+  Kept here, unmodified, because a statement is never edited to make it provable.
+  (`C12_refetch_model` / `C12_refetch_model_step` prove the too-small half.)
 -/
 namespace Afkak.Props.C12.Open
 open Afkak.Crc32 Afkak.WireCost Afkak.C12 Afkak.Monitor.C12
